@@ -280,14 +280,14 @@ def check_vectors():
 # workload generation
 
 
-def gen_type(rng, depth, structs_so_far, allow_var=True):
+def gen_type(rng, depth, structs_so_far, allow_var=True, prefer=None):
     opts = [("int", 6), ("float", 1.5)]
     if allow_var:
         opts += [("str", 2.5), ("dyn", 2 if depth < 3 else 0), ("opt", 1.5 if depth < 3 else 0)]
     if depth < 3:
         opts.append(("arr", 1.5))
         if structs_so_far:
-            opts.append(("struct", 1.5))
+            opts.append(("struct", 1.5 if allow_var else 4))
     k = weighted(rng, opts)
     if k == "int":
         w = weighted(rng, [(8, 4), (16, 2), (32, 2), (64, 2), (rng.randint(1, 64), 6), (1, 1), (7, 1), (63, 1)])
@@ -297,12 +297,17 @@ def gen_type(rng, depth, structs_so_far, allow_var=True):
     if k == "str":
         return ["str"]
     if k == "dyn":
-        return ["dyn", gen_type(rng, depth + 1, structs_so_far)]
+        return ["dyn", gen_type(rng, depth + 1, structs_so_far, allow_var, prefer)]
     if k == "opt":
-        return ["opt", gen_type(rng, depth + 1, structs_so_far)]
+        return ["opt", gen_type(rng, depth + 1, structs_so_far, allow_var, prefer)]
     if k == "arr":
-        return ["arr", gen_type(rng, depth + 1, structs_so_far), rng.randint(1, 4)]
-    return ["struct", rng.choice(structs_so_far)]
+        return ["arr", gen_type(rng, depth + 1, structs_so_far, allow_var, prefer), rng.randint(1, 4)]
+    if prefer and rng.random() < 0.6:
+        return ["struct", rng.choice(prefer)]      # the same nested struct type again (accel: Vec3, gyro: Vec3)
+    name = rng.choice(structs_so_far)
+    if prefer is not None:
+        prefer.append(name)
+    return ["struct", name]
 
 
 def gen_schema(rng):
@@ -311,17 +316,19 @@ def gen_schema(rng):
     names = []
     words = rng.sample(range(len(S.PASCAL)), ns)
     aligned_only = rng.random() < 0.35     # swarm: byte-aligned shapes reach deeper through the gate today
+    fixed_only = rng.random() < 0.2        # swarm: fully fixed layouts (no string / dynamic array / optional anywhere)
     for si in range(ns):
         nf = rng.randint(1, 5)
         fields = []
         fwords = rng.sample(S.WORDS, nf)
+        used_structs = []
         for fi in range(nf):
-            t = gen_type(rng, 1, names)
+            t = gen_type(rng, 1, names, allow_var=not fixed_only, prefer=used_structs)
             if aligned_only and t[0] in ("u", "i"):
                 t = [t[0], rng.choice([8, 16, 32, 64])]
             fields.append({"name": fwords[fi], "id": fi, "type": t})
         # bias: a string / dynamic array in last position
-        if rng.random() < 0.45:
+        if not fixed_only and rng.random() < 0.45:
             fields[-1]["type"] = weighted(rng, [(["str"], 3), (["dyn", ["u", 8]], 1), (["dyn", ["str"]], 1),
                                                  (["opt", ["str"]], 1), (["arr", ["str"], 2], 1)])
         name = f"Rec{S.PASCAL[words[si]]}{si}"
